@@ -6,8 +6,8 @@ TInit == l = 1 /\ g = [d |-> <<>>, sp |-> DefaultSp]
 TNext == /\ l <= Len(Tr) /\ l' = l + 1 /\ UNCHANGED g
          /\ LET r == Tr[l] IN
             CASE r.e = "reset" -> TRUE
-              [] r.e = "html"  -> /\ ~r.null /\ r.src = DocSrc(r.d, r.sp)              \* the code rendered exactly the spelling the spec wrote
-                                  /\ r.out = DocHtml(r.d, r.mode, r.smart)              \* and produced the HTML the reference prescribes
+              [] r.e = "html"  -> /\ ~r.null /\ r.src = FullSrc(r.d, r.sp)              \* the code rendered exactly the spelling the spec wrote
+                                  /\ r.out = FullHtml(r.d, r.mode, r.smart)              \* and produced the HTML the reference prescribes
               [] r.e = "comp"  -> ~r.null /\ r.whole = Cat(r.parts)                      \* independent blocks: concatenation of their own renderings, in any order
               [] OTHER -> FALSE
 TraceAccepted == TLCGet("stats").diameter = Len(Tr) + 1
